@@ -4,6 +4,7 @@ import (
 	"errors"
 	"fmt"
 	"reflect"
+	"sync"
 	"time"
 
 	z "github.com/Oudwins/zog"
@@ -21,11 +22,19 @@ type Event struct {
 type Recorder struct {
 	// schema objects already built, by case node: a node that occurs at several positions of the
 	// case tree is ONE zog schema object placed at several positions (C17 sharing)
-	Built  map[*Node]z.ZogSchema
-	Events []Event
-	Order  map[string][]string // struct path -> keys in visit order
+	Built      map[*Node]z.ZogSchema
+	Events     []Event
+	Order      map[string][]string // struct path -> keys in visit order
 	OrderPaths []string
-	CtxSeen []any
+	CtxSeen    []any
+	CtxLeak    string
+	mu         sync.Mutex
+}
+
+func (r *Recorder) addEvent(e Event) {
+	r.mu.Lock()
+	r.Events = append(r.Events, e)
+	r.mu.Unlock()
 }
 
 func NewRecorder() *Recorder {
@@ -79,10 +88,23 @@ func (o TOpts) zopts() []z.TestOption {
 	return out
 }
 
+// LeakKey: no execution of the harness ever passes this context value; the S-pool stream plants it in
+// recycled objects
+const LeakKey = "verif_leak"
+
+func noteCtx(ctx z.Ctx, rec *Recorder) {
+	if v := ctx.Get(LeakKey); v != nil {
+		rec.mu.Lock()
+		rec.CtxLeak = fmt.Sprint(v)
+		rec.mu.Unlock()
+	}
+}
+
 func fnTest(n *Node, t TestSpec, rec *Recorder) z.BoolTFunc {
 	return func(val any, ctx z.Ctx) bool {
+		noteCtx(ctx, rec)
 		d := argD(n, val)
-		rec.Events = append(rec.Events, Event{"test", t.ID, ctxPath(ctx), d})
+		rec.addEvent(Event{"test", t.ID, ctxPath(ctx), d})
 		if d.K == "nilarg" {
 			return false
 		}
@@ -113,8 +135,9 @@ func bumpRV(rv reflect.Value) {
 
 func postFn(n *Node, ps PostSpec, rec *Recorder) z.PostTransform {
 	return func(ptr any, ctx z.Ctx) error {
+		noteCtx(ctx, rec)
 		d := argD(n, ptr)
-		rec.Events = append(rec.Events, Event{"post", ps.ID, ctxPath(ctx), d})
+		rec.addEvent(Event{"post", ps.ID, ctxPath(ctx), d})
 		var rv reflect.Value
 		if ptr != nil {
 			rv = reflect.ValueOf(ptr)
@@ -433,25 +456,24 @@ func build1(n *Node, rec *Recorder) z.ZogSchema {
 		if n.CK == "int" {
 			return z.CustomFunc(func(ptr *int, ctx z.Ctx) bool {
 				d := argD(n, ptr)
-				rec.Events = append(rec.Events, Event{"custom", t.ID, ctxPath(ctx), d})
+				rec.addEvent(Event{"custom", t.ID, ctxPath(ctx), d})
 				return d.K != "nilarg" && emod(d.Measure(), t.N) == t.R
 			}, t.Opts.zopts()...)
 		}
 		return z.CustomFunc(func(ptr *string, ctx z.Ctx) bool {
 			d := argD(n, ptr)
-			rec.Events = append(rec.Events, Event{"custom", t.ID, ctxPath(ctx), d})
+			rec.addEvent(Event{"custom", t.ID, ctxPath(ctx), d})
 			return d.K != "nilarg" && emod(d.Measure(), t.N) == t.R
 		}, t.Opts.zopts()...)
 	}
 	panic(fmt.Sprintf("Build: bad node %s/%s", n.Kind, n.PK))
 }
 
-
 // ---- exported pieces used by the builder stream ----
 
 func (o TOpts) Zopts() []z.TestOption { return o.zopts() }
 
-func FnTestFunc(n *Node, t TestSpec, rec *Recorder) z.BoolTFunc { return fnTest(n, t, rec) }
+func FnTestFunc(n *Node, t TestSpec, rec *Recorder) z.BoolTFunc    { return fnTest(n, t, rec) }
 func PostFunc(n *Node, ps PostSpec, rec *Recorder) z.PostTransform { return postFn(n, ps, rec) }
 
 // ApplyStringTest adds one negatable / plain built-in string test; ns is the pending Not() receiver or nil.
